@@ -1751,8 +1751,12 @@ impl<F: Field> std::fmt::Debug for PinnedConstraintSystem<'_, F> {
             .field("num_advice_columns", num_advice_columns)
             .field("num_instance_columns", num_instance_columns)
             .field("num_selectors", num_selectors);
-        // Only show multi-phase related fields if it's used.
-        if *num_challenges > &0 {
+        // Only show multi-phase related fields if it's used: there is a challenge,
+        // or some advice column is not in the first phase (the verifier reads the
+        // advice commitments phase by phase, also when no challenge exists).
+        if *num_challenges > &0
+            || advice_column_phase.iter().any(|phase| *phase != FirstPhase.to_sealed())
+        {
             debug_struct
                 .field("num_challenges", num_challenges)
                 .field("advice_column_phase", advice_column_phase)
